@@ -49,7 +49,7 @@ ASSUMPTIONS = [
     "so that the allocation (which depends on id()-ordered sets) is a function of the case",
 ]
 TRUSTED = ["CPython", "Hypothesis", "simulation + liveness in vf/props/c06.py", "vf/genir.py", "vf/gencc.py"]
-REGISTER = False
+REGISTER = True
 TECHNIQUE = "translation validation of each allocated frame: lockstep uninterpreted-symbol simulation pre vs post allocation on edge-covering and random flow-graph paths, liveness-based suspect detector confirmed on witness paths"
 LEVEL_TEXT = (
     "Exploration by translation validation: for every generated frame on 12 targets the virtual-register list and the allocated "
@@ -1517,16 +1517,36 @@ def _message(res):
 
 
 def replay(case):
-    """One JSON case, evaluated in a forked child of a fresh zygote interpreter (reproducible heap)."""
+    """One JSON case, evaluated in a forked child of a fresh zygote interpreter (reproducible heap).
+
+    ppci's allocation depends on the heap layout, and the layout before compilation depends on every imported module,
+    the harness included.  A case that records `perturb` (every failing case does: it is the layout under which the failure
+    was confirmed) is therefore replayed as "fails under the recorded layout or one of the other MAX_PERTURB standard
+    layouts", which stays a deterministic function of (case, tree) but survives edits of the harness.  A case without
+    `perturb` (regression corpus) is evaluated once."""
     c = dict(case)
     c["dump"] = True
-    res = zygote().evaluate(c)
-    if res.get("discard"):
-        raise Discard(res["discard"])
-    msg = _message(res)
-    if msg is None and not res["frames"]:
-        raise Discard("no frame: %s %s" % (res.get("func_discards"), res.get("problems")))
-    return msg
+    ks = [int(case.get("perturb", 0))]
+    if "perturb" in case:
+        ks += [k for k in range(MAX_PERTURB) if k != ks[0]]
+    first = None
+    for k in ks:
+        try:
+            res = zygote().evaluate(dict(c, perturb=k))
+        except Discard:
+            if first is None:
+                raise
+            continue
+        if first is None:
+            first = res
+            if res.get("discard"):
+                raise Discard(res["discard"])
+            if not res["frames"] and not res.get("failure"):
+                raise Discard("no frame: %s %s" % (res.get("func_discards"), res.get("problems")))
+        msg = _message(res)
+        if msg is not None:
+            return msg
+    return None
 
 
 def explicit_case(case, res):
